@@ -622,7 +622,7 @@ func genCase(r *Rng, mask int, cfg genCfg, maxOps int) Sx {
 }
 
 func gen(r *Rng, tier string, emit func(Sx)) {
-	nAll, nNoLevel, nMem, maxOps := 450, 350, 700, 40
+	nAll, nNoLevel, nMem, maxOps := 300, 250, 600, 40
 	if tier == "thorough" {
 		nAll, nNoLevel, nMem, maxOps = 6000, 5000, 20000, 90
 	}
